@@ -195,6 +195,26 @@ def gen_a(rng, sched_rng, tier: str) -> Dict[str, Any]:
 # ---------------------------------------------------------------------------
 # Part B
 # ---------------------------------------------------------------------------
+def _quoted_query(rng, t: int) -> str:
+    """Bracketed names and string literals (thread-unique, some long, some with escapes):
+    what the lexer/parser has to decode character by character."""
+    names = [rng.choice(Q.KEYS), f"key-{t}-" + rng.choice("xyz") * rng.choice((1, 4, 12)), "a b", "q\\n" + str(t), "é" * rng.choice((1, 3))]
+    parts = ["$"]
+    for _ in range(rng.randint(1, 3)):
+        r = rng.random()
+        n1, n2 = rng.choice(names), rng.choice(names)
+        if r < 0.4:
+            parts.append(f"['{n1}']" if rng.random() < 0.6 else f'["{n1}"]')
+        elif r < 0.6:
+            parts.append(f"['{n1}', \"{n2}\"]")
+        elif r < 0.85:
+            parts.append(f"[?@['{n1}'] == '{n2}' || @.a == \"{n1}\"]")
+        else:
+            parts.append(f"..[?match(@['{n1}'], '{rng.choice(Q.PATTERNS)}')]")
+    return "".join(parts)
+
+
+
 def gen_b(rng, sched_rng, tier: str) -> Dict[str, Any]:
     setup, docs, envs, envspecs, queries = _pool(rng, tier)
     setup = list(setup)
@@ -212,9 +232,26 @@ def gen_b(rng, sched_rng, tier: str) -> Dict[str, Any]:
     nthreads = rng.choice((2, 2, 3))
     programs: Dict[str, List[Dict[str, Any]]] = {}
     own_ids = 0
+    compile_storm = rng.random() < 0.3  # every thread compiles on ONE shared environment at the same time
+    storm_env = rng.choice(envs)
     for t in range(nthreads):
         name = f"T{t}"
         prog: List[Dict[str, Any]] = []
+        if compile_storm:
+            for _ in range(rng.randint(2, 4)):
+                own_ids += 1
+                cid = f"t{own_ids}"
+                r = rng.random()
+                if r < 0.5:
+                    q = _quoted_query(rng, t)
+                elif r < 0.85:
+                    q = rng.choice(queries + SUSPEND_QUERIES)
+                else:
+                    q = rng.choice(Q.INVALID_TEXTS)
+                prog.append({"op": "compile", "id": cid, "env": storm_env, "q": q})
+                prog.append({"op": "apply", "c": cid, "doc": rng.choice(docs), "entry": rng.choice(H.ENTRIES)})
+            programs[name] = prog
+            continue
         my_docs = list(docs)
         if rng.random() < 0.7:
             # a thread-private document (same shape as d0, different content)
